@@ -231,6 +231,14 @@ func (env *Env) eval(st *State, e CExpr) Value {
 			ne.vars[p.Name] = val
 		}
 		body := ne.eval(st, e.Body).L[0]
+		if e.Forall && len(e.Trig) > 0 {
+			var pats []*Term
+			for _, te := range e.Trig {
+				tv := ne.eval(st, te)
+				pats = append(pats, tv.L[0])
+			}
+			return boolVal(ForallPat(bound, body, pats))
+		}
 		if e.Forall {
 			return boolVal(Forall(bound, body))
 		}
@@ -878,6 +886,13 @@ func (env *Env) call(st *State, e CCall) Value {
 			return Value{T: t, L: []*Term{x.L[1], x.L[2]}}
 		}
 		return env.load(st, x.L[1], x.L[2], t)
+	case "pointee_iface":
+		// pointee_iface(x): x is an interface value holding a pointer to an interface variable; the variable's value
+		x := arg(0)
+		if _, ok := x.T.Underlying().(*types.Interface); !ok {
+			env.fail("pointee_iface expects an interface value")
+		}
+		return env.load(st, x.L[1], x.L[2], types.Universe.Lookup("any").Type())
 	case "min", "max":
 		a, b := arg(0).L[0], arg(1).L[0]
 		if e.Fun == "min" {
